@@ -7,10 +7,11 @@ def regen(ctx):
     q, e, t = "runtime/timed/queue.go:", "runtime/timed/executor.go:", "runtime/timed/taskexecutor.go:"
     return checklib.regen_skeletons(ctx, [
         q + "Queue.Add", q + "Queue.Shutdown", q + "Queue.Poll", q + "QueueElement.Cancel", q + "Queue.removeElement",
-        q + "QueueElement.isCanceled", e + "Executor.Shutdown", e + "Executor.startBackgroundWorkers",
+        q + "QueueElement.isCanceled", q + "QueueElement.cancelPending", q + "QueueElement.closeCancel",
+        e + "Executor.Shutdown", e + "Executor.startBackgroundWorkers",
         t + "TaskExecutor.ExecuteAt", t + "TaskExecutor.Cancel",
     ], extra_methods=["Wait", "Signal", "Broadcast", "Cancel", "Add", "Poll", "ExecuteAt", "Get", "Set", "Delete",
-                      "Push", "Pop", "Remove"])
+                      "Push", "Pop", "Remove", "cancelPending", "closeCancel"])
 
 
 SPEC = {
@@ -24,8 +25,8 @@ SPEC = {
     "theorems": ["C18_trace_ok", "C18_never_early", "C18_never_early_run", "C18_at_most_once",
                  "C18_cancel_before_pop_never_delivered", "C18_cancel_true_never_runs", "C18_cancel_result",
                  "C18_one_pending_per_id", "C18_cancel_false_nothing_pending", "C18_reschedule_replaces",
-                 "C18_cancel_true_iff_prevented_partial", "C18_cancel_true_size_bound_witness",
-                 "C18_cancel_true_after_shutdown_witness", "C18_eventually_delivered", "C18_due_element_moves",
+                 "C18_statement_holds", "C18_cancel_true_iff_prevented", "C18_old_size_bound_witness",
+                 "C18_old_after_shutdown_witness", "C18_eventually_delivered", "C18_due_element_moves",
                  "C18_shutdown_wakes_pollers", "C18_skeleton_add", "C18_skeleton_shutdown", "C18_skeleton_poll",
                  "C18_skeleton_cancel", "C18_skeleton_executor", "C18_skeleton_taskexecutor"],
     "trusted_base": [
@@ -59,11 +60,11 @@ SPEC = {
                 "(C18_at_most_once), never delivered after a completed Cancel (C18_cancel_before_pop_never_delivered), never run "
                 "after Cancel(id)=true or after being replaced (C18_cancel_true_never_runs, C18_reschedule_replaces); at most one "
                 "pending task per identifier and none when Cancel(id) returns false (C18_one_pending_per_id, "
-                "C18_cancel_false_nothing_pending); no stuck configuration with a pending element, also after Shutdown without "
-                "CancelPendingElements (C18_eventually_delivered), Shutdown wakes every waiting poller "
-                "(C18_shutdown_wakes_pollers). Cancel(id)=true implies a pending task only without size bound and before "
-                "Shutdown (C18_cancel_true_iff_prevented_partial; full statement C18_statement refuted by two witnesses replayed "
-                "on the code, recorded as known findings). Tie: the real TaskExecutor is driven from one goroutine at instants tens "
+                "C18_cancel_false_nothing_pending); Cancel(id)=true implies that a task was pending in exactly one place "
+                "(C18_cancel_true_iff_prevented, C18_statement_holds - the queue marks every element it drops, the two former "
+                "known findings are fixed and kept as C18_old_*_witness); no stuck configuration with a pending element, also "
+                "after Shutdown without CancelPendingElements (C18_eventually_delivered), Shutdown wakes every waiting poller "
+                "(C18_shutdown_wakes_pollers). Tie: the real TaskExecutor is driven from one goroutine at instants tens "
                 "of ms apart (operations at even, due times at odd clock values; timing validity judged by a canary goroutine and "
                 "the harness's own lateness, invalid cases re-run with a larger unit) and must give line by line the answers of "
                 "the compiled Lean model run under a deterministic scheduler (return values, Size(), which task ran in which "
@@ -71,8 +72,8 @@ SPEC = {
                 "insertion); stress traces judged by okLog; independent Go oracle (early, double, ran after Cancel true, wrong "
                 "Cancel result, replaced task ran, missing delivery, Shutdown hang); regenerated synchronisation skeletons.",
         "note": "Trusted: Lean kernel; the hand-written model and Go's sync/timer semantics as modelled; real-time tie with generous "
-                "margins (cases whose own timing was disturbed are re-run, persistently disturbed ones dropped and counted). Seven "
-                "defects of the unchanged tree were exhibited and repaired by fix: commits, two remain as known findings.",
+                "margins (cases whose own timing was disturbed are re-run, persistently disturbed ones dropped and counted). Nine "
+                "defects of the unchanged tree were exhibited and repaired by fix: commits; no known finding remains.",
         "technique": "Lean 4 inductive invariants over an interleaving protocol model (counting invariants per element serial, "
                      "registry invariants, condition-variable accounting) + differential execution of the model's transition "
                      "function + trace-predicate conformance + regenerated skeleton obligations",
